@@ -32,6 +32,8 @@ pub enum Event {
     /// formatted output piece
     Fmt(String),
     FmtVal(Tid),
+    /// value formatted through format_args! (its own format spec: the caller's width/precision/sign are NOT forwarded)
+    FmtArg(Tid),
     /// use of a moved-out / uninitialised leaf
     BadRead(String),
     /// generic note
